@@ -7,6 +7,11 @@ BASELINE = ("cd /repo && (cargo nextest run --workspace --no-fail-fast --tool-co
 
 # id -> (level, technique, level text, note, design ref)
 CHECKS = {
+ "C11": ("exploration",
+         "model-based property testing: exhaustive sequences over 14 document kinds (length <= 3 / 4) + proptest longer streams; oracle = per-document results composed by a stream model",
+         "All sequences of length <= 3 (thorough 4) over 14 document kinds with rotating text variants, end markers, trailing comments and CRLF, and random streams up to 8 documents, for an untyped and a typed target; batch (str, slice), the streaming iterator under three read chunkings, and the single-document entry points are compared with a model composed from each document parsed alone (skip empty/null, stop at syntax error, continue after type error, len+2 termination bound, anchors not visible across documents). Exploration over the enumerated space.",
+         "documents are classified by construction (contains a syntax error / empty); behaviour after a document that aliases an earlier document's anchor and trailing empty documents after single-document entry points are not judged",
+         "DESIGN.md section 3 C11"),
  "C04": ("exploration",
          "metamorphic + reference-model property-based testing: each generated mapping is run under all three policies and compared with the harness' de-duplicated renderings and ground-truth key positions; exhaustive small mappings + proptest",
          "All mappings with <= 4 entries over 2 key identities x 3 key kinds (scalar, sequence, mapping) x 3 value shapes (up to 3-level containers) at 3 nesting positions in block and flow layout, plus random mappings with quoted/tagged/aliased keys and aliased values. Error policy: DuplicateMappingKey at the renderer's ground-truth position of the second occurrence; FirstWins == document with later entries deleted; LastWins delivers every entry in order / overwriting map == earlier entries deleted; no repeats => all policies agree. Exploration: no counterexample in the enumerated and sampled space.",
